@@ -153,7 +153,10 @@ def generate(rng, n, tier, stats):
             stats['index_kind']['label:near-absent list'] += 1
         stats['form'][formk] += 1
         keepdims = spelling.startswith('take') and rng.random() < 0.15
-        cases.append({'ins': [a], 'ops': [['get', spelling, form, tol, keepdims, by]]})
+        # sometimes the axes have answered is_monotonic() before the lookup (any arithmetic / alignment does that): the cached answer
+        # ("monotonic, either way") is no licence for a binary search
+        warm = [['query', 'monotonic']] if rng.random() < 0.3 else []
+        cases.append({'ins': [a], 'ops': warm + [['get', spelling, form, tol, keepdims, by]]})
     return cases
 
 # ---------------------------------------------------------------- oracle
@@ -231,7 +234,7 @@ def py_pos(ix):
     raise ValueError(ix)
 
 def oracle(case, res):
-    a = case['ins'][0]; op = case['ops'][0]
+    a = case['ins'][0]; op = case['ops'][-1]
     if op[0] == 'get_ndmask':
         if res[0] == 'err': return 'indexing with a boolean mask of the full shape raised %s' % res[1]
         arr = mk_array(a); m = np.array(op[1], dtype=bool).reshape(arr.shape)
